@@ -511,7 +511,7 @@ theorem tree_ex {s : PState} {f : ObjectTree → Res ObjectTree} {t' : ObjectTre
 
 /-- the opcodes whose objects carry an invariant of their own (`Method`: flags argument, `Scope`: shape of the
 directive): no payload step turns an object into one of them or out of one of them -/
-def isK (op : Nat) : Bool := op == opMethod || op == opScope || op == opIntScopeBlock
+def isK (op : Nat) : Bool := op == opMethod || op == opScope || op == opIntScopeBlock || op == opIntNamePathOrMethodCall
 
 /-- a step that changes only the reader (forward, same `pkgEnd`) and the payload of slot `obj` -/
 structure PayOnly (obj : Nat) (s s' : PState) : Prop where
@@ -528,10 +528,13 @@ structure PayOnly (obj : Nat) (s s' : PState) : Prop where
   /-- a `Method` / `Scope` / scope block keeps its name and its table handle -/
   nmk : isK (slot s.tree obj).opcode = true → (slot s'.tree obj).name = (slot s.tree obj).name ∧
     (slot s'.tree obj).tableHandle = (slot s.tree obj).tableHandle
+  /-- … and its table row -/
+  vik : isK (slot s.tree obj).opcode = true → (slot s'.tree obj).infoIndex = (slot s.tree obj).infoIndex
 
 theorem isK_method : isK opMethod = true := by decide
 theorem isK_scope : isK opScope = true := by decide
 theorem isK_block : isK opIntScopeBlock = true := by decide
+theorem isK_call : isK opIntNamePathOrMethodCall = true := by decide
 
 /-- `obj` neither becomes nor stops being a `Method` -/
 theorem PayOnly.mth {obj : Nat} {s s' : PState} (h : PayOnly obj s s') :
@@ -570,7 +573,7 @@ theorem SameLinks.trans {a b c : ObjectTree} (h1 : SameLinks a b) (h2 : SameLink
    fun x => by rw [h2.live, h1.live], fun x => by rw [h2.index, h1.index]⟩
 
 theorem PayOnly.refl (obj : Nat) (s : PState) : PayOnly obj s s :=
-  ⟨SameLinks.refl _, fun _ _ => rfl, rfl, rfl, ⟨rfl, rfl, rfl⟩, rfl, Nat.le_refl _, Or.inl rfl, fun _ => ⟨rfl, rfl⟩⟩
+  ⟨SameLinks.refl _, fun _ _ => rfl, rfl, rfl, ⟨rfl, rfl, rfl⟩, rfl, Nat.le_refl _, Or.inl rfl, fun _ => ⟨rfl, rfl⟩, fun _ => rfl⟩
 
 theorem PayOnly.trans {obj : Nat} {a b c : PState} (h1 : PayOnly obj a b) (h2 : PayOnly obj b c) : PayOnly obj a c :=
   ⟨h1.links.trans h2.links, fun x hx => by rw [h2.others x hx, h1.others x hx], by rw [h2.scope, h1.scope],
@@ -586,19 +589,26 @@ theorem PayOnly.trans {obj : Nat} {a b c : PState} (h1 : PayOnly obj a b) (h2 : 
        rcases h1.opc with e1 | ⟨a1, _⟩
        · rw [e1]; exact hm
        · rw [a1] at hm; cases hm
-     exact ⟨by rw [(h2.nmk hm1).1, (h1.nmk hm).1], by rw [(h2.nmk hm1).2, (h1.nmk hm).2]⟩⟩
+     exact ⟨by rw [(h2.nmk hm1).1, (h1.nmk hm).1], by rw [(h2.nmk hm1).2, (h1.nmk hm).2]⟩,
+   fun hm => by
+     have hm1 : isK (slot b.tree obj).opcode = true := by
+       rcases h1.opc with e1 | ⟨a1, _⟩
+       · rw [e1]; exact hm
+       · rw [a1] at hm; cases hm
+     rw [h2.vik hm1, h1.vik hm]⟩
 
 theorem PayOnly.ofR (obj : Nat) (s : PState) (r' : Reader) (hp : r'.pkgEnd = s.r.pkgEnd) (ho : s.r.offset ≤ r'.offset) :
     PayOnly obj s { s with r := r' } :=
-  ⟨SameLinks.refl _, fun _ _ => rfl, rfl, rfl, ⟨rfl, rfl, rfl⟩, hp, ho, Or.inl rfl, fun _ => ⟨rfl, rfl⟩⟩
+  ⟨SameLinks.refl _, fun _ _ => rfl, rfl, rfl, ⟨rfl, rfl, rfl⟩, hp, ho, Or.inl rfl, fun _ => ⟨rfl, rfl⟩, fun _ => rfl⟩
 
 theorem PayOnly.ofSetAt (obj : Nat) (s : PState) (f : Obj → Obj) (hf : KeepsLinks f) (hl : KeepsLive s.tree obj f)
     (hm : (f (slot s.tree obj)).opcode = (slot s.tree obj).opcode ∨
       (isK (slot s.tree obj).opcode = false ∧ isK (f (slot s.tree obj)).opcode = false))
     (hn : isK (slot s.tree obj).opcode = true → (f (slot s.tree obj)).name = (slot s.tree obj).name ∧
-      (f (slot s.tree obj)).tableHandle = (slot s.tree obj).tableHandle) :
+      (f (slot s.tree obj)).tableHandle = (slot s.tree obj).tableHandle)
+    (hv : isK (slot s.tree obj).opcode = true → (f (slot s.tree obj)).infoIndex = (slot s.tree obj).infoIndex) :
     PayOnly obj s { s with tree := setAt s.tree obj f } := by
-  refine ⟨sameLinks_setAt s.tree obj f hf hl, ?_, rfl, rfl, ⟨rfl, rfl, rfl⟩, rfl, Nat.le_refl _, ?_, ?_⟩
+  refine ⟨sameLinks_setAt s.tree obj f hf hl, ?_, rfl, rfl, ⟨rfl, rfl, rfl⟩, rfl, Nat.le_refl _, ?_, ?_, ?_⟩
   · intro x hx
     show slot (setAt s.tree obj f) x = slot s.tree x
     rw [slot_setAt']
@@ -616,6 +626,12 @@ theorem PayOnly.ofSetAt (obj : Nat) (s : PState) (f : Obj → Obj) (hf : KeepsLi
     split
     · exact hn ho
     · exact ⟨rfl, rfl⟩
+  · intro ho
+    show (slot (setAt s.tree obj f) obj).infoIndex = _
+    rw [slot_setAt']
+    split
+    · exact hv ho
+    · rfl
 
 macro "keeps_links" : tactic => `(tactic| (intro o; exact ⟨rfl, rfl, rfl, rfl, rfl, rfl⟩))
 
